@@ -28,8 +28,11 @@ Fld(r, f, d) == IF f \in DOMAIN r THEN r[f] ELSE d
 \* a subnet the interface owns is kept in addrs as <<nic, "net:" + textual prefix>> (byte-aligned IPv4 subnets: "10.1." = 10.1/16)
 IsNet(a) == Len(a) > 4 /\ SubSeq(a, 1, 4) = "net:"
 InNet(dst, a) == LET pre == SubSeq(a, 5, Len(a)) IN Len(dst) >= Len(pre) /\ SubSeq(dst, 1, Len(pre)) = pre
+\* (prefixes that are not byte-aligned are kept as <<nic, "cidr:a.b.c.d/len">>; which of them contain the destination of an injected
+\*  packet is arithmetic the scenario generator did: field innets of the injection event)
 Accepts(nic, dst) == <<nic, dst>> \in addrs \/ nic \in promisc
-                     \/ \E a \in addrs : a[1] = nic /\ IsNet(a[2]) /\ InNet(dst, a[2])
+                     \/ (\E a \in addrs : a[1] = nic /\ IsNet(a[2]) /\ InNet(dst, a[2]))
+                     \/ (\E a \in addrs : a[1] = nic /\ a[2] \in SeqToSet(Fld(Ev, "innets", <<>>)))
 \* (a socket bound to an interface - Bind or Connect with a NIC id - matches only what arrived on that interface: rnic; 0 = any)
 Cands(typ, nic, v, dport) == {s \in Sids : socks[s].typ = typ /\ socks[s].st \in Live /\ socks[s].lport = dport /\ v \in socks[s].nets
                                              /\ socks[s].rnic \in {0, nic}}
